@@ -10,3 +10,4 @@ from . import c_accessors   # noqa
 from . import c_headers_read  # noqa
 from . import c_producers   # noqa
 from . import c_conversion  # noqa
+from . import c_headers_write  # noqa
